@@ -506,6 +506,26 @@ func c09Values(c *Ctx) {
 					cbVals = nil
 					f.Do(addr, "PUT", "/characteristics", "application/hap+json", []byte(body))
 				}
+				if n, isInt := v.(int); isInt {
+					// a JSON number has no integer / fraction distinction: 7, 7.0, 7e0 and 0.7e1 are one value,
+					// and controllers (JavaScript ones above all) do send integers in the other spellings
+					spell := []string{fmt.Sprintf("%d.0", n), fmt.Sprintf("%de0", n), fmt.Sprintf("%d.00E+0", n)}
+					if n != 0 && n%10 == 0 {
+						spell = append(spell, fmt.Sprintf("%de1", n/10), fmt.Sprintf("%d.0e+01", n/10))
+					}
+					num := spell[r.Intn(len(spell))]
+					ch.UpdateValue(other)
+					nb := fmt.Sprintf(`{"characteristics":[{"aid":%d,"iid":%d,"value":%s}]}`, acc.ID, ch.ID, num)
+					st2, _, _, pm2 := f.Do(addr, "PUT", "/characteristics", "application/hap+json", []byte(nb))
+					if pm2 != "" || st2 != 204 || (ch.IsReadable() && !sameGoValue(ch.Value, v)) {
+						c.Violate("value written by a verified controller is not what the application reads", id,
+							map[string]interface{}{"constructor": e.Name, "format": ch.Format, "value_as_sent": "the JSON number " + num}, fmt.Sprint(v), fmt.Sprintf("status %d, %T %v %s", st2, ch.Value, ch.Value, pm2))
+					}
+					c.Count(fmt.Sprint(e.Name, "/put-spelling/", num), true, "values:put:int-spelling")
+					ch.UpdateValue(other)
+					cbVals = nil
+					f.Do(addr, "PUT", "/characteristics", "application/hap+json", []byte(body))
+				}
 				if changed && (len(cbVals) != 1 || !sameGoValue(cbVals[0], v)) {
 					c.Violate("remote-update callback did not receive the written value exactly once", id, desc, fmt.Sprint(v), fmt.Sprint(cbVals))
 				}
